@@ -36,7 +36,8 @@ fn run(ctx: &Ctx) {
          proptest-generated composites with factorisation known by construction (14 shapes weighted to the README's weak spots: \
          p^k up to k = 40, (pq)^2, p^2 q, 3..12 primes, consecutive primes, factors just above 199 and inside the factor base, \
          Carmichael, p(2p-1)) in Auto mode up to 150 bits (quick) / 200 bits (thorough) with threads in {None,2,8}, and on the \
-         Qs/Mpqs/Siqs/Ecm/Ecm128 selectors inside their working range. Non-trivial = at least two prime factors above 199; \
+         Qs/Mpqs/Siqs/Ecm/Ecm128 selectors inside their working range; the published strong pseudoprimes psi_1..psi_13, spsp(2,3,5[,7]) \
+         and Carmichael numbers alone, squared and times small primes in Auto mode. Non-trivial = at least two prime factors above 199; \
          distinct by (selector, n, threads).",
     );
     ctx.assume("ground truth is the constructed prime factorisation (certified primes: deterministic Miller-Rabin <= 64 bits, Pocklington above)");
@@ -64,7 +65,45 @@ fn run(ctx: &Ctx) {
         }
         run_batch(ctx, check, "opt", &cases, timeout, &judge_c02, &mut l);
     }
+    // published composites that fool small base sets (psi_k = smallest strong pseudoprime to the first k prime bases,
+    // further spsp(2,3,5[,7]) and Carmichael numbers), alone, squared and times small / factor-base primes: the
+    // automatic mode ends on a primality decision for each cofactor, and these are the cofactors that decision is
+    // known to be delicate on.  Ground truth: the published factorisations (verified by the kit self-test) or trial division.
+    {
+        use crate::oracle::int::{factor_u64, U1024};
+        use crate::oracle::prim::{EXTRA_SPSP, PSI, PSI_FACTORS};
+        let mut cases = vec![];
+        let mut bases: Vec<Vec<U1024>> = vec![];
+        for (k, _) in PSI.iter().enumerate() {
+            bases.push(PSI_FACTORS[k].iter().map(|&f| U1024::from(f)).collect());
+        }
+        for &m in EXTRA_SPSP.iter() {
+            let mut fs = vec![];
+            for (q, e) in factor_u64(m) {
+                for _ in 0..e {
+                    fs.push(U1024::from(q));
+                }
+            }
+            bases.push(fs);
+        }
+        for fs in &bases {
+            for extra in [vec![], vec![3u64], vec![199], vec![211], vec![2, 2, 5, 193], vec![65537], vec![1000003, 1000003]] {
+                let mut all = fs.clone();
+                all.extend(extra.iter().map(|&q| U1024::from(q)));
+                for th in [None, Some(2usize)] {
+                    let mut c = mk_case("published-pseudoprime", all.clone(), "auto", PrefSpec::default());
+                    c.prefs.threads = th;
+                    cases.push(c);
+                }
+            }
+            let mut sq = fs.clone();
+            sq.extend(fs.iter().cloned());
+            cases.push(mk_case("published-pseudoprime", sq, "auto", PrefSpec::default()));
+        }
+        run_batch(ctx, check, "opt", &cases, timeout, &judge_c02, &mut l);
+    }
     ctx.merge(l);
+    ctx.essential("shape:published-pseudoprime", 100);
     ctx.essential("outcome:opt:ok", 1000);
     ctx.essential("shape:prime-power", 20);
     ctx.essential("shape:square-of-composite", 20);
